@@ -50,6 +50,8 @@ func (fr *Frame) callCommon(common *ssa.CallCommon, args []*Val, fv *Val, st *St
 	}
 	switch callee := common.Value.(type) {
 	case *ssa.Builtin:
+		// call-site clauses may be attached to a builtin ("at builtin.delete assert ...")
+		fr.atAsserts("builtin."+callee.Name(), args, nil, st, pos)
 		return fr.builtin(callee, common, args, st, pos)
 	case *ssa.Function:
 		return fr.staticCall(callee, args, nil, st, pos)
